@@ -88,6 +88,18 @@ def check_case(ctx, case):
             if not close(b[t + 1], float(m), rtol=1e-12, scale=scale):
                 probs.append(('violation', 'boot-mean', 'sample %d: %r vs mean over resampled configurations %r' % (t, b[t + 1], float(m))))
                 break
+        # the documented `save_rng` argument: the default (name-seeded) table is written out, and it is the table that was used
+        if case['seed'] % 4 == 0:
+            import tempfile as _tf
+            with _tf.TemporaryDirectory(dir='/dev/shm' if os.path.isdir('/dev/shm') else None) as td_:
+                fn_ = os.path.join(td_, 'rng.txt')
+                bs_ = o.export_bootstrap(nb, save_rng=fn_)
+                saved_ = np.loadtxt(fn_, dtype=int).reshape(nb, n)
+                want_ = [float(sum(fx[kk] for kk in row) / n) for row in saved_]
+                if not all(close(u, v, rtol=1e-12, scale=scale) for u, v in zip(bs_[1:], want_)):
+                    probs.append(('violation', 'boot-saved-table', 'the table written by save_rng does not reproduce the exported samples'))
+                if not np.array_equal(o.export_bootstrap(nb), bs_):
+                    probs.append(('violation', 'boot-seed-not-reproducible', 'export with save_rng differs from a plain export'))
         if nb >= n:
             proj = np.vstack([np.bincount(row, minlength=n) for row in table]) / n
             if np.linalg.matrix_rank(proj) == n and np.linalg.cond(proj) < 1e6:
